@@ -28,4 +28,19 @@ TABLE = {
     'C11': {'technique': TLC,
             'text': 'KzReader.tla with every block range (from,to) up to blocks+2 is model-checked (R_Prefix against the expected slice, R_SkipUntouched, all-skipped batches terminate) and replayed; every range of real streams up to 12 blocks and random ranges over codecs/jobs are judged by Trace_Reader.tla, D_DEC hook events proving that skipped blocks are not decoded.',
             'note': READER_NOTE},
+    'C04': {'technique': TLC,
+            'text': 'KzWriter.tla (Write loop, batches, encode tasks, token hand-off, shared bitstream) is model-checked exhaustively for jobs 1..3(4) x data lengths x hints x Write lengths (W_Partition, W_Mutex, W_TokenOrder); every edge is replayed on the real Writer through the gate hooks and the sink content parsed independently; recorded executions of identical data+parameters through jobs {1,2,3,4,8,64} x Write partitions x repeated runs x perturbed schedules must yield byte-identical streams (Trace_Writer.tla Out events).',
+            'note': READER_NOTE},
+    'C08': {'technique': TLC + '; exhaustive enumeration of the failing sink call index',
+            'text': 'KzWriter.tla with sink faults during the emit of every block, codec faults in every block, failing final flush and sink Close with retries is model-checked (W_CloseOK, W_FailureReported, W_NoPanic) and every edge replayed with the faults placed where the model places them; then, per stream, a fault-free run counts the sink calls and one run per failing call index (once / forever / partial) x caller reaction is judged by Trace_Writer.tla; source faults at random call indices are judged by Trace_Reader.tla (never a clean EOF before the error is reported).',
+            'note': READER_NOTE + '; a source failure that happens after the complete stream was handed over is not required to be reported'},
+    'C17': {'technique': TLC,
+            'text': 'KzWriter.tla / KzReader.tla with the full call alphabet (lengths incl. 0, repeated Close, calls after Close, retried Close after a failure) are model-checked (W_ClosedRefuses, R_ClosedRefuses, W_CloseOK) and all edges replayed on the real objects; random API programs over Write/Close/GetWritten and Read/Close/GetRead are judged call by call by Trace_Writer.tla / Trace_Reader.tla (idempotent Close, refusal after Close, full-length Write, monotone counters, GetWritten = bytes received by the sink).',
+            'note': READER_NOTE},
+    'C07': {'technique': TLC,
+            'text': 'Protocol configurations of KzWriter.tla and KzReader.tla (N = 2..4 concurrent tasks, a failure of every kind in every block position: before the wait, while holding the stream, after publishing; end of stream; skipped batches) are model-checked for Mutex, TokenOrder, CancelSticks, deadlock freedom and, under weak fairness, termination of every call and task; every edge of every graph is replayed on the real code through the hooks (gates + injected faults), a task that does not reach its next protocol point is a violation; free-running executions with up to 64 jobs are checked by the interval predicates of the trace specs.',
+            'note': READER_NOTE + '; "nobody acquires after a published failure" is decided in replay mode only (a free-running log cannot order the load of the spin loop)'},
+    'C06': {'technique': TLC,
+            'text': 'KzWriter.tla/KzReader.tla are model-checked and replayed with every mix of Write/Read buffer lengths (incl. 0); real streams over all codec pairs are decoded through sources delivering 1, 7, 8, 9, 13/5/64, random ... bytes per call with random Read buffer sizes, and compressed through random Write partitions; Trace_Reader.tla/Trace_Writer.tla require the digests of the plain run. The bit-level refill logic is model-checked in KzBitIn.tla (C14).',
+            'note': READER_NOTE},
 }
